@@ -3,6 +3,7 @@ package verifxfer
 import (
 	"fmt"
 	"os"
+	"path/filepath"
 	"strings"
 	"sync"
 	"testing"
@@ -141,6 +142,104 @@ func TestVerifC01KnownNames(t *testing.T) {
 		}
 		os.RemoveAll(dir)
 	}
+}
+
+// TestVerifC01Prior: the output directory holds the state of an earlier, interrupted attempt
+// - possibly made with another chunk size (also one under which a file keeps its chunk
+// count), with holes below the highest received chunk, as several streams leave them. If
+// both sides report success the tree must be identical.
+func TestVerifC01Prior(t *testing.T) {
+	rec := verifkit.NewRecorder("C01", "prior")
+	defer rec.Flush()
+	rapid.Check(t, func(rt *rapid.T) {
+		x := xcase{Chunk: rapid.OneOf(rapid.IntRange(2, 64), rapid.SampledFrom([]int{16, 100, 400})).Draw(rt, "chunk")}
+		x.Tree = verifnet.GenTree(rt, x.Chunk, verifnet.GenOpts{MaxFiles: 4, MinFiles: 1, MaxChunks: 10})
+		x.Streams = rapid.IntRange(1, 6).Draw(rt, "streams")
+		x.Conns = rapid.SampledFrom([]int{1, 1, 2, 3}).Draw(rt, "conns")
+		x.SendResume, x.RecvResume = true, true
+		x.NoRootDir = rapid.IntRange(0, 3).Draw(rt, "rootdir") != 0
+		x.Mode = rapid.SampledFrom([]string{"scan", "paths"}).Draw(rt, "mode")
+		x.QUICVis = rapid.Bool().Draw(rt, "quicvis")
+		dir := caseDir("c01p")
+		defer os.RemoveAll(dir)
+		p, err := prepare(x, dir)
+		if err != nil {
+			rec.Class("not-prepared")
+			return
+		}
+		// chunk size of the earlier attempt
+		prior := x.Chunk
+		mode := rapid.SampledFrom([]string{"same", "same-count", "same-count", "other"}).Draw(rt, "prior_chunk")
+		switch mode {
+		case "same-count":
+		search:
+			for d := 40; d >= 1; d-- {
+				for _, c2 := range []int{x.Chunk + d, x.Chunk - d} {
+					if c2 < 1 {
+						continue
+					}
+					for _, it := range p.fileItems() {
+						n1, n2 := (int(it.Size)+x.Chunk-1)/x.Chunk, (int(it.Size)+c2-1)/c2
+						if n1 >= 2 && n1 == n2 {
+							prior = c2
+							break search
+						}
+					}
+				}
+			}
+		case "other":
+			prior = rapid.IntRange(1, 2*x.Chunk).Draw(rt, "prior_chunk_value")
+		}
+		ps := priorState{Marked: map[string][]int{}}
+		holes := false
+		for i, it := range p.fileItems() {
+			total := (int(it.Size) + prior - 1) / prior
+			if total == 0 {
+				continue
+			}
+			bits := rapid.SliceOfN(rapid.Bool(), total, total).Draw(rt, fmt.Sprintf("marked%d", i))
+			var marked []int
+			for j, b := range bits {
+				if b {
+					marked = append(marked, j)
+				}
+			}
+			if len(marked) > 0 {
+				ps.Marked[it.RelPath] = marked
+				if marked[len(marked)-1]+1 > len(marked) {
+					holes = true
+				}
+			}
+		}
+		if err := p.installPriorChunk(ps, 0, prior); err != nil {
+			rt.Fatalf("install prior: %v", err)
+		}
+		pair, err := p.newPair(nil)
+		if err != nil {
+			rt.Fatalf("pair: %v", err)
+		}
+		res := p.run(pair, 20*time.Second, 3*time.Second)
+		pair.Close()
+		rec.Eval()
+		rec.Class("prior-chunk-size/" + mode)
+		if holes {
+			rec.Class("prior-marks-with-holes")
+		}
+		if !res.BothOK() {
+			rec.Class("not-both-ok")
+			return
+		}
+		if diff := p.checkTree(); diff != "" {
+			rec.Fail(rt, "tree-differs-after-success", fmt.Sprintf("%s | earlier attempt: chunk size %d, marks %v | case: %s", diff, prior, ps.Marked, x))
+			return
+		}
+		if len(ps.Marked) > 0 {
+			rec.NonTrivial(fmt.Sprintf("%d|%v|%s", prior, ps.Marked, x.fingerprint()))
+		}
+		if rec.SampleWanted() {
+			rec.Sample(map[string]any{"case": x.String(), "prior_chunk_size": prior, "prior_marks": fmt.Sprint(ps.Marked)})
+		}
+	})
 }
 
 // ---- C03: every transfer between healthy peers completes ---------------------------
@@ -376,7 +475,16 @@ func TestVerifC03Resumed(t *testing.T) {
 	defer rec.Flush()
 	rapid.Check(t, func(rt *rapid.T) {
 		x := xcase{Chunk: rapid.OneOf(rapid.IntRange(1, 40), rapid.SampledFrom([]int{7, 16, 64, 512})).Draw(rt, "chunk")}
-		x.Tree = verifnet.GenTree(rt, x.Chunk, verifnet.GenOpts{MaxFiles: 4, MinFiles: 1, MaxChunks: 10})
+		// "late report": the receiver's resume report reaches the sender only after the sender's
+		// grace period (hook-delayed by 450 ms per file), and the highest chunk the earlier run
+		// recorded is damaged on disk, so that the sender's verification asks for a re-send while
+		// (or after) the file has already been sent in full - duplicate chunks then arrive late
+		late := rapid.IntRange(0, 59).Draw(rt, "late_report") == 37 // (rapid favours the ends of a range: a middle value keeps the share near 1/60)
+		maxFiles := 4
+		if late {
+			maxFiles = 2
+		}
+		x.Tree = verifnet.GenTree(rt, x.Chunk, verifnet.GenOpts{MaxFiles: maxFiles, MinFiles: 1, MaxChunks: 10})
 		x.Streams = rapid.IntRange(1, 6).Draw(rt, "streams")
 		x.Conns = rapid.SampledFrom([]int{1, 1, 2}).Draw(rt, "conns")
 		x.SendResume, x.RecvResume = true, true
@@ -399,6 +507,9 @@ func TestVerifC03Resumed(t *testing.T) {
 				continue
 			}
 			mode := rapid.IntRange(0, 3).Draw(rt, fmt.Sprintf("prior%d", i)) // 0 none, 1 all, 2-3 subset
+			if late && i == 0 && mode != 1 && rapid.Bool().Draw(rt, "late_all_marked") {
+				mode = 1 // the re-send path of a completely recorded file
+			}
 			var marked []int
 			switch mode {
 			case 1:
@@ -424,15 +535,58 @@ func TestVerifC03Resumed(t *testing.T) {
 		if err := p.installPrior(ps, 0); err != nil {
 			rt.Fatalf("install prior: %v", err)
 		}
-		pair, err := p.newPair(nil)
+		if late {
+			damaged := 0
+			for _, it := range p.fileItems() {
+				marked := ps.Marked[it.RelPath]
+				if len(marked) == 0 {
+					continue
+				}
+				hi := marked[len(marked)-1]
+				fp := filepath.Join(p.baseDirOf(), filepath.FromSlash(it.RelPath))
+				if data, err := os.ReadFile(fp); err == nil && hi*x.Chunk < len(data) {
+					data[hi*x.Chunk] ^= 0x5a
+					os.WriteFile(fp, data, 0644)
+					damaged++
+				}
+			}
+			if damaged > 0 {
+				rec.Class("late-report-with-damaged-highest-chunk")
+			}
+		}
+		var optsFor func(int) verifkit.MemOptions
+		if late {
+			// the receiver's records on the control stream spend 450-600 ms in flight (the first one,
+			// its resume report, longer than the sender's grace period) without blocking the receiver
+			optsFor = func(i int) verifkit.MemOptions {
+				o := verifkit.MemOptions{QUICVisibility: x.QUICVis, Window: x.Window, Segment: x.Segment}
+				if i == 0 {
+					o.Latency = func(ordinal int, d verifkit.Dir, off int64) time.Duration {
+						if ordinal == 0 && d == verifkit.BtoA {
+							if off == 0 {
+								return 450 * time.Millisecond
+							}
+							return 600 * time.Millisecond // confirmations are slow as well
+						}
+						return 0
+					}
+				}
+				return o
+			}
+		}
+		pair, err := p.newPair(optsFor)
 		if err != nil {
 			rt.Fatalf("pair: %v", err)
 		}
 		remove := installPerturb(x.Perturb, nil)
+		t0 := time.Now()
 		res := p.run(pair, 30*time.Second, 5*time.Second)
 		remove()
 		pair.Close()
 		rec.Eval()
+		if d := time.Since(t0); d > 1500*time.Millisecond {
+			rec.Note("slow resumed case (%.1fs, late=%v): %s", d.Seconds(), late, x)
+		}
 		detail := fmt.Sprintf("prior marks: %v | case: %s | %s", ps.Marked, x, res)
 		switch {
 		case res.Hung:
